@@ -125,6 +125,27 @@ def run(ck, F, tier):
         ok2 = full and zero_pred
     ck.inst("Y3", "NotFullRank", ok2, e2.site if e2 else F.body(FN).span,
             "returned exactly when no column j of the whole range 0..m has a non-zero entry in the last echelon row (the scan must cover every column)")
+    # the rank test and the column placement read the *echelon form*: at the top level of the function the statement that reduces the
+    # array precedes the statement that can return NotFullRank (directly or through a private helper of the module)
+    fbody = F.body(FN)
+    top = fbody.value.get("stmts", []) + ([{"k": "expr", "e": fbody.value["e"]}] if fbody.value.get("e") is not None else [])
+
+    def mentions(node, pred, depth=0):
+        for x in walk(node):
+            if pred(x):
+                return True
+            if depth < 2 and x.get("k") in ("call", "mcall"):
+                hb = F.private_helper(callee(x) or "", "systematic::")
+                if hb is not None and hb.hir and mentions(hb.value, pred, depth + 1):
+                    return True
+        return False
+    is_ech = lambda x: x.get("k") in ("call", "mcall") and (callee(x) or "").endswith("linalg::row_echelon_form")
+    is_nfr = lambda x: x.get("k") == "path" and (x.get("def") or "").endswith("Error::NotFullRank")
+    i_ech = [i for i, st_ in enumerate(top) if mentions(st_.get("init") or st_.get("e") or st_, is_ech)]
+    i_nfr = [i for i, st_ in enumerate(top) if mentions(st_.get("init") or st_.get("e") or st_, is_nfr)]
+    ord_ok = len(i_ech) == 1 and bool(i_nfr) and i_ech[0] < min(i_nfr)
+    ck.inst("Y3", "rank-test-on-echelon-form", ord_ok, fbody.span,
+            "row_echelon_form(&mut a) is the top-level statement %s; NotFullRank can first be returned by statement %s (the test must read the reduced array)" % (i_ech, i_nfr[:1]))
     from ..linalg_rules import row_operation_width
     row_operation_width(ck, F, "Y4", "linalg::row_echelon_form", floor=2)
     ck.inst("Y3", "no-other-error", set(seen) <= {"ParityOverdetermined", "NotFullRank"}, F.body(FN).span, "only the two documented errors are returned early")
